@@ -14,7 +14,7 @@ import sys
 sys.path.insert(0, os.path.dirname(os.path.abspath(__file__)))
 import queries as Q      # noqa
 
-NAMESETS = [["r", "a", "b", "A", "c"], ["r", "a*", "a", "?", "a.b"], ["top", "x", "x", "X", "y"]]
+NAMESETS = [["r", "a", "A", "b", "c"], ["r", "a*", "a", "?", "a.b"], ["top", "x", "x", "X", "y"]]
 
 
 def mk(shape, names, sep, attr):
@@ -164,6 +164,7 @@ def run_case(c):
     nodes = mk(tup(c["shape"]), NAMESETS[c["names"]], c["sep"], c["attr"])
     start = nodes[c["start"]]
     ic, relax, attr = c["ic"], c["relax"], c["attr"]
+    Resolver._match_cache.clear()     # every case starts from an empty cache; the history below then varies its contents
     # cache history (C08): earlier glob calls, possibly by a resolver with the other ignorecase flag
     for h in c.get("history", []):
         try:
@@ -237,6 +238,11 @@ COMPS = ["a", "b", "A", "x", "..", ".", "", "*", "a*", "?", "**", "r", "top", "z
 
 def paths(k, sep, glob):
     comps = [c for c in COMPS if glob or not (wild(c) or c == "**")]
+    if not glob:
+        # get treats wildcard characters literally - also in the root component of an absolute path
+        for root in ("r*", "?", "t*", "*", "to?"):
+            yield sep + root
+            yield sep + root + sep + "a"
     for n in range(1, k + 1):
         for t in itertools.product(comps, repeat=n):
             yield sep.join(t)
